@@ -53,6 +53,7 @@ type effects struct {
 	callers  map[*ssa.Function][]ssa.CallInstruction
 	fieldFns map[*types.Var][]*ssa.Function // functions stored into a func-typed struct field
 	closures map[*ssa.Function][]*ssa.MakeClosure
+	boundRecv map[*ssa.Function][]ssa.Value // method -> receivers its method values were bound to
 	changed  bool
 }
 
@@ -119,6 +120,21 @@ func (p *Program) newEffects() *effects {
 				}
 				if mc, ok := ins.(*ssa.MakeClosure); ok {
 					ef.closures[mc.Fn.(*ssa.Function)] = append(ef.closures[mc.Fn.(*ssa.Function)], mc)
+					// a method value (x.visit): the receiver of the method is what the closure was bound to
+					if w := mc.Fn.(*ssa.Function); strings.HasPrefix(w.Synthetic, "bound method wrapper") && len(mc.Bindings) == 1 {
+						for _, wb := range w.Blocks {
+							for _, wi := range wb.Instrs {
+								if ci, isCall := wi.(ssa.CallInstruction); isCall {
+									if m := ci.Common().StaticCallee(); m != nil {
+										if ef.boundRecv == nil {
+											ef.boundRecv = map[*ssa.Function][]ssa.Value{}
+										}
+										ef.boundRecv[m] = append(ef.boundRecv[m], mc.Bindings[0])
+									}
+								}
+							}
+						}
+					}
 				}
 				// a function used as a value (not as the callee, not in MakeClosure) escapes
 				var ops []*ssa.Value
@@ -342,7 +358,21 @@ func (ef *effects) solve() {
 				if !pointerLike(par.Type()) {
 					continue
 				}
-				if ef.exposed[fn] || len(ef.callers[fn]) == 0 && fn.Parent() == nil {
+				bound := ef.boundRecv[fn]
+				switch {
+				case ef.exposed[fn]:
+					ef.add(par, clsExtern)
+				case len(bound) > 0:
+					// used as a method value: the receiver is what each value was bound to, the other arguments
+					// are supplied by whoever calls the value
+					if i == 0 && fn.Signature.Recv() != nil {
+						for _, b := range bound {
+							ef.add(par, ef.valueClass(b))
+						}
+					} else {
+						ef.add(par, clsExtern)
+					}
+				case len(ef.callers[fn]) == 0 && fn.Parent() == nil:
 					ef.add(par, clsExtern)
 				}
 				for _, site := range ef.callers[fn] {
@@ -1099,13 +1129,40 @@ func (ef *effects) checkFormats(r *Run, pos func(ssa.Instruction) string) {
 								idx = i
 							}
 						}
-						okFwd = idx >= 0
-						for _, site := range ef.callers[fn] {
-							c, isConst := site.Common().Args[idx].(*ssa.Const)
-							if !isConst || c.Value == nil || c.Value.Kind() != constant.String || strings.Contains(constant.StringVal(c.Value), "%p") {
-								okFwd = false
+						// every call site passes a constant, or forwards its own format parameter in turn
+						var constAt func(f *ssa.Function, idx, depth int) bool
+						constAt = func(f *ssa.Function, idx, depth int) bool {
+							if idx < 0 || depth > 4 || len(ef.callers[f]) == 0 || ef.exposed[f] {
+								return false
 							}
+							for _, site := range ef.callers[f] {
+								args := site.Common().Args
+								if idx >= len(args) {
+									return false
+								}
+								switch a := args[idx].(type) {
+								case *ssa.Const:
+									if a.Value == nil || a.Value.Kind() != constant.String || strings.Contains(constant.StringVal(a.Value), "%p") {
+										return false
+									}
+								case *ssa.Parameter:
+									outer := site.Parent()
+									j := -1
+									for i, pp := range outer.Params {
+										if pp == a {
+											j = i
+										}
+									}
+									if outer == f || !constAt(outer, j, depth+1) {
+										return false
+									}
+								default:
+									return false
+								}
+							}
+							return true
 						}
+						okFwd = constAt(fn, idx, 0)
 						if okFwd {
 							break
 						}
